@@ -61,6 +61,7 @@ structure ArtCfg where
   emb : Bytes        -- `y` has a picture, `n` empty reply, else an ACK code
   file : Bytes
   mime : Bool
+  order : Nat := 0
 deriving Repr
 
 def parseArt (uri : Bytes) : Option ArtCfg :=
@@ -68,7 +69,11 @@ def parseArt (uri : Bytes) : Option ArtCfg :=
   | a :: s :: l :: e :: f :: m :: _ =>
     if a != str "art" then none else
     match decNat s, decNat l with
-    | some size, some limit => some { size, limit, emb := e, file := f, mime := m == str "1" }
+    | some size, some limit =>
+      -- m: 0 = no `type`; 1 = `size`, `type`; 2 = `type` before `size`; 3 = an unknown key between `size`
+      -- and `type`; 4 = an unknown key after `type` (keys are looked up by name, in any order)
+      some { size, limit, emb := e, file := f, mime := m == str "1" || m == str "2" || m == str "3" || m == str "4",
+             order := (decNat m).getD 0 }
     | _, _ => none
   | _ => none
 
@@ -99,9 +104,16 @@ def execOne (lim : Option Nat) (line : Bytes) : Except (Nat × Bytes × Bytes ×
         let src := if name == str "readpicture" then c.emb else c.file
         if src == str "y" then
           let n := min (lim.getD c.limit) (c.size - off)
-          .ok (str "size: " ++ natToDec c.size ++ [LF] ++
-            (if name == str "readpicture" && c.mime then str "type: image/x-test\n" else []) ++
-            str "binary: " ++ natToDec n ++ [LF] ++ picture off n ++ [LF])
+          let sizeL := str "size: " ++ natToDec c.size ++ [LF]
+          let typeL := str "type: image/x-test\n"
+          let head : Bytes :=
+            if name == str "readpicture" && c.mime then
+              (if c.order == 2 then typeL ++ sizeL
+               else if c.order == 3 then sizeL ++ str "description: Cover (front)\n" ++ typeL
+               else if c.order == 4 then sizeL ++ typeL ++ str "comment: x\n"
+               else sizeL ++ typeL)
+            else sizeL
+          .ok (head ++ str "binary: " ++ natToDec n ++ [LF] ++ picture off n ++ [LF])
         else if src == str "n" then .ok []
         else
           let code := (decNat src).getD 50
